@@ -90,6 +90,8 @@ class Gen:
         self.mws = mw or ["MWSpan", "MWState", "MWCtx", "MWAll"] + (["MWSlice"] if slices else [])
         if not slices and "ToSlice" in self.inner: self.inner.remove("ToSlice")
         self.iter_adapt = True
+        self.emitters = "Validate" in self.ctors
+        self.emit_bias = 0.0
 
     def tok(self): return self.r.choice(self.alpha)
     def toks(self, lo=1, hi=2): return [self.tok() for _ in range(self.r.randint(lo, hi))]
@@ -126,10 +128,27 @@ class Gen:
         raise AssertionError(c)
 
     def g(self, d, consuming_only=False):
+        # emit-then-maybe-fail templates: a validate() emission followed by something that can still fail, so that
+        # abandoned attempts (last repetition attempt, rejected alternative, failed lookahead, ...) have emitted
+        if self.emitters and d >= 1 and self.r.random() < self.emit_bias:
+            x = self.emitter(d)
+            if not consuming_only or consuming(x): return x
         for _ in range(30):
             x = self._g(d)
             if not consuming_only or consuming(x): return x
         return self.leaf(True)
+
+    def emitter(self, d):
+        k = self.k()
+        head = ["Validate", "PTrue" if self.r.random() < 0.7 else self.pred(), k,
+                self.r.choice(["Any", ["OneOf", self.toks(1, 3)], ["Just", self.toks(1, 1)]])]
+        if "RecoverVia" in self.ctors and self.r.random() < 0.35:
+            # a recovery that can succeed without consuming (insert-the-missing-token style)
+            head = ["RecoverVia", ["Just", self.toks(1, 1)], self.r.choice([["To", self.k(), "Empty"], "Empty", ["To", self.k(), "Any"]])]
+        c = self.r.random()
+        tail = ["Just", self.toks(1, 1)] if c < 0.7 else self.g(max(d - 2, 0), True)
+        if c < 0.85: return [self.r.choice(["ThenIgnore", "Then"]), head, tail]
+        return head
 
     def _g(self, d):
         if d <= 0 or not self.inner or self.r.random() < 0.2: return self.leaf()
@@ -175,11 +194,12 @@ class Gen:
         c = self.r.random()
         item = self.g(d, True)
         lo, hi = self.bounds()
+        if unit and self.r.random() < 0.5: lo, hi, c = 0, "inf", 0.0     # the Repeated::go fast loop (0..inf) is separate code
         if c < 0.5: base = ["IRep", item, lo, hi]
         elif c < 0.85:
             sep = self.g(max(d - 1, 0), True) if self.r.random() < 0.3 else ["Just", [COMMA]]
             base = ["ISep", item, sep, lo, hi, self.r.randint(0, 1), self.r.randint(0, 1)]
-        elif c < 0.93 and "JustCfg" in self.ctors: base = ["IRepCfg", item, lo, hi]
+        elif c < 0.93 and "JustCfg" in self.ctors: base = ["IRepCfg", item, lo, hi, self.r.choice([0, 0, 1, 2, 3])]
         elif not unit: base = ["IOrNot", item]
         else: base = ["IRep", item, lo, hi]
         if unit: return base
@@ -261,7 +281,11 @@ def sample_it(rng, i, alpha, ctx, exactly=None):
     if h == "IOrNot": return sample(rng, i[1], alpha, ctx) if rng.random() < 0.6 else []
     if h in ("IRep", "IRepCfg"):
         lo, hi = i[2], i[3]
-        if h == "IRepCfg": lo = hi = len(ctx)
+        if h == "IRepCfg":
+            ck = i[4] if len(i) > 4 else 0
+            if ck in (0, 1): lo = len(ctx)
+            if ck in (0, 2): hi = len(ctx)
+            if hi != "inf" and lo > hi: lo = hi
         n = exactly if exactly is not None else rng.randint(lo, (lo + 2) if hi == "inf" else hi)
         return [t for _ in range(n) for t in sample(rng, i[1], alpha, ctx)]
     if h == "ISep":
